@@ -1,4 +1,302 @@
-(* C17 — unsupported or malformed input stops the run: theorem statements. *)
+(* C17 — unsupported or malformed input stops the run instead of yielding
+   geometry.  Only restatements; proofs are in C17/Proofs.v.  [validate S d] is
+   the model of a whole run (Ok tt = the conversion finishes normally); every
+   statement holds for any scalar structure S (reals, binary64) and for decks of
+   any size. *)
 From Coq Require Import List NArith ZArith Bool String Ascii Lia.
-From T4V Require Import Base.Str Base.Scalar C17.Model.
+From T4V Require Import Base.Str Base.Scalar C17.Model C17.Proofs.
 Import ListNotations.
+Open Scope string_scope.
+
+(* ---------------- transformations with m != 1 ---------------- *)
+
+(* a TR / *TR card with 13 entries whose last entry is not 1, anywhere among
+   the TR cards of any deck *)
+Theorem C17_tr_card_m_rejected : forall T (S : Scalar T) (d : deckm (T:=T)) t,
+  In t (d_trs d) -> List.length (tr_entries t) = 13%nat ->
+  seqb S (last (tr_entries t) (s1 S)) (s1 S) = false ->
+  is_ok (validate S d) = false.
+Proof. exact @run_tr_card_m_rejected. Qed.
+Print Assumptions C17_tr_card_m_rejected.
+
+(* normalised transformations never have 13 entries: the m != 1 test of
+   ParseMCNPCell.__init__ is unreachable, the rejection above is the one of
+   normalize_transform *)
+Theorem C17_tr_lengths_never_13 : forall T (S : Scalar T) (l : list (trc (T:=T))) r,
+  stage_trs S l [] = Ok r -> forall p, In p r -> snd p <> 13%nat.
+Proof. intros T S l r H. eapply stage_trs_lengths; [exact H|]. intros p []. Qed.
+Print Assumptions C17_tr_lengths_never_13.
+
+(* TRCL=(13 entries) and *TRCL=(13 entries), m != 1, as the first keyword of
+   the options of any cell of any deck (e = the keyword token, starred or not) *)
+Theorem C17_inline_trcl_m_rejected : forall T (S : Scalar T) (d : deckm (T:=T)) c e ps rest,
+  In c (d_cells d) -> c_toks c = e :: ps ++ rest ->
+  prefix "imp" (tsp e) = false -> contains_sub "fill" (tsp e) = false ->
+  contains_sub "lat" (tsp e) = false -> contains_sub "trcl" (tsp e) = true ->
+  forallb numeric_lead ps = true -> forallb (fun p => float_lit (tsp p)) ps = true ->
+  stops rest -> List.length ps = 13%nat ->
+  seqb S (last (map tval ps) (s1 S)) (s1 S) = false ->
+  is_ok (validate S d) = false.
+Proof. exact @run_inline_trcl_m_rejected. Qed.
+Print Assumptions C17_inline_trcl_m_rejected.
+
+(* FILL=n (13 entries) and *FILL=n (13 entries), m != 1 *)
+Theorem C17_inline_fill_m_rejected : forall T (S : Scalar T) (d : deckm (T:=T)) c e u ps rest,
+  In c (d_cells d) -> c_toks c = e :: u :: ps ++ rest ->
+  prefix "imp" (tsp e) = false -> contains_sub "fill" (tsp e) = true ->
+  has_colon u = false -> float_lit (tsp u) = true ->
+  forallb numeric_lead ps = true -> forallb (fun p => float_lit (tsp p)) ps = true ->
+  stops rest -> List.length ps = 13%nat ->
+  seqb S (last (map tval ps) (s1 S)) (s1 S) = false ->
+  is_ok (validate S d) = false.
+Proof. exact @run_inline_fill_m_rejected. Qed.
+Print Assumptions C17_inline_fill_m_rejected.
+
+(* the same at the level of the two keyword functions, wherever the keyword
+   sits (parse_trcl_kw; the transformation part of parse_fill_kw) *)
+Theorem C17_inline_m_rejected : forall T (S : Scalar T) star trs (ps rest : list (tok (T:=T))),
+  forallb numeric_lead ps = true -> forallb (fun p => float_lit (tsp p)) ps = true ->
+  stops rest -> List.length ps = 13%nat ->
+  seqb S (last (map tval ps) (s1 S)) (s1 S) = false ->
+  parse_trcl S star trs (ps ++ rest) = Err ETransformation /\
+  fill_params S star trs (ps ++ rest) = Err ETransformation.
+Proof. intros; split; [apply trcl_m_rejected|apply inline_m_rejected]; assumption. Qed.
+Print Assumptions C17_inline_m_rejected.
+
+(* ---------------- surfaces ---------------- *)
+
+Theorem C17_unknown_mnemonic_rejected : forall T (S : Scalar T) (d : deckm (T:=T)) s,
+  In s (d_surfs d) -> ~ In (sf_mn s) macros -> ~ In (sf_mn s) elementary ->
+  is_ok (validate S d) = false.
+Proof. exact @run_unknown_mnemonic_rejected. Qed.
+Print Assumptions C17_unknown_mnemonic_rejected.
+
+(* macrobodies: exactly the arities of the manual are accepted *)
+Theorem C17_macro_arity_rejected : forall T (S : Scalar T) (d : deckm (T:=T)) s,
+  In s (d_surfs d) -> In (sf_mn s) macros ->
+  ~ In (List.length (sf_params s)) (macro_arities (sf_mn s)) ->
+  is_ok (validate S d) = false.
+Proof. exact @run_macro_arity_rejected. Qed.
+Print Assumptions C17_macro_arity_rejected.
+
+Theorem C17_macro_arity_exact : forall T (S : Scalar T) mn (p : list T),
+  In mn macros ->
+  (In (List.length p) (macro_arities mn) -> is_ok (surface_check S mn p) = true) /\
+  (~ In (List.length p) (macro_arities mn) -> is_ok (surface_check S mn p) = false) /\
+  (p <> [] -> ~ In (List.length p) (macro_arities mn) -> surface_check S mn p = Err EMacroBody).
+Proof.
+  intros T S mn p Hm. split; [|split].
+  - apply macro_arity_accepted; assumption.
+  - apply macro_arity_rejected; assumption.
+  - intros; apply macro_arity_error; assumption.
+Qed.
+Print Assumptions C17_macro_arity_exact.
+
+(* elementary surfaces: a card is accepted exactly when [elem_accepts] says so
+   (P: 4 or 9; S: 4; TX/TY/TZ: 5 or 6; X/Y/Z: 2 or 4; but "at least n" for
+   SX.. C/X.. K/X.. KX.. SQ and anything for PX.. SO CX.. GQ) *)
+Theorem C17_surface_arity_rejected : forall T (S : Scalar T) (d : deckm (T:=T)) s,
+  In s (d_surfs d) -> In (sf_mn s) elementary ->
+  elem_accepts (sf_mn s) (List.length (sf_params s)) = false ->
+  is_ok (validate S d) = false.
+Proof. exact @run_surface_arity_rejected. Qed.
+Print Assumptions C17_surface_arity_rejected.
+
+Theorem C17_surface_arity_exact : forall T (S : Scalar T) mn (p : list T),
+  In mn elementary -> p <> [] ->
+  is_ok (surface_check S mn p) = elem_accepts mn (List.length p).
+Proof. exact @surface_arity_exact. Qed.
+Print Assumptions C17_surface_arity_exact.
+
+(* the full statement "a wrong number of parameters is rejected" is false of the
+   code: any number of surplus parameters on SO (likewise PX.. CX.. SX.. C/X..
+   K/X.. KX.. SQ GQ), and any number at all on GQ *)
+Theorem C17_surplus_surface_params_refuted : forall T (S : Scalar T) (x : T) (surplus : list T),
+  surface_check S "so" (x :: surplus) = Ok (1%nat, 1%nat) /\
+  surface_check S "px" (x :: surplus) = Ok (1%nat, 1%nat) /\
+  surface_check S "cz" (x :: surplus) = Ok (1%nat, 1%nat) /\
+  surface_check S "c/z" (x :: x :: x :: surplus) = Ok (1%nat, 1%nat) /\
+  surface_check S "sx" (x :: x :: surplus) = Ok (1%nat, 1%nat) /\
+  is_ok (surface_check S "sq" (x :: x :: x :: x :: x :: x :: x :: x :: x :: x :: surplus)) = true.
+Proof. intros; repeat split; reflexivity. Qed.
+Print Assumptions C17_surplus_surface_params_refuted.
+
+Theorem C17_gq_short_params_refuted : forall T (S : Scalar T) (x : T) (p : list T),
+  surface_check S "gq" (x :: p) = Ok (1%nat, 1%nat).
+Proof. intros; reflexivity. Qed.
+Print Assumptions C17_gq_short_params_refuted.
+
+(* ---------------- lattices ---------------- *)
+
+(* LAT with FILL=n and no --lattice option for the cell *)
+Theorem C17_lattice_no_opt_rejected : forall T (S : Scalar T) (d : deckm (T:=T)) c,
+  In c (d_cells d) ->
+  (forall lat, parse_lattice (d_latopts d) = Ok lat -> lookup (c_id c) lat = None) ->
+  (forall trs k, parse_kw S (Datatypes.S (List.length (c_toks c))) trs (c_toks c) kws0 = Ok k ->
+     exists fr z, k_fill k = Some fr /\ f_bounds fr = None /\ k_lat k = Some z) ->
+  is_ok (validate S d) = false.
+Proof. exact @run_lattice_no_opt_rejected. Qed.
+Print Assumptions C17_lattice_no_opt_rejected.
+
+Theorem C17_to_fillid_no_opt : forall T (k : kws (T:=T)) fr z,
+  k_fill k = Some fr -> f_bounds fr = None -> k_lat k = Some z ->
+  to_fillid k None = Err EMissingLatticeOpt.
+Proof. exact @lattice_no_opt_rejected. Qed.
+Print Assumptions C17_to_fillid_no_opt.
+
+(* ranges against the number nb of lattice directions: accepted exactly when
+   nb ranges are given, or when nb of them are non-trivial *)
+Theorem C17_lattice_dims_exact : forall nb b,
+  lattice_dims_check nb b = Ok tt <-> (nb = List.length b \/ nb = bounds_dims b).
+Proof. exact lattice_dims_exact. Qed.
+Print Assumptions C17_lattice_dims_exact.
+
+Theorem C17_lattice_dims_rejected : forall nb b,
+  nb <> List.length b -> nb <> bounds_dims b -> lattice_dims_check nb b = Err ELattice.
+Proof. exact lattice_dims_rejected. Qed.
+Print Assumptions C17_lattice_dims_rejected.
+
+(* the full statement (a surplus range must be trivial) is false of the code:
+   the loop that was meant to test it never runs; e.g. a 1-D lattice with
+   ranges 0:0 0:0 0:1 passes *)
+Theorem C17_lattice_trailing_range_refuted :
+  (forall nb b, nb <> List.length b -> nb = bounds_dims b ->
+     Z.to_nat (Z.of_nat nb - Z.of_nat (List.length b)) = 0%nat) /\
+  lattice_dims_check 1 [(0, 0); (0, 0); (0, 1)]%Z = Ok tt /\
+  lattice_dims_check 2 [(0, 0); (0, 1); (0, 1)]%Z = Ok tt.
+Proof. split; [exact missing_loop_dead|split; reflexivity]. Qed.
+Print Assumptions C17_lattice_trailing_range_refuted.
+
+Theorem C17_lattice_nsurf_exact : forall n k,
+  square_nb n = Ok k <-> (n = 2 /\ k = 1 \/ n = 4 /\ k = 2 \/ n = 6 /\ k = 3)%nat.
+Proof. exact square_nb_exact. Qed.
+Print Assumptions C17_lattice_nsurf_exact.
+
+(* ---------------- facets ---------------- *)
+
+(* in every run that finishes: facets of directly converted cells are <= the
+   number of TRIPOLI-4 pieces; facets of cells moved by TRCL are in 1..number of
+   MCNP pieces *)
+Theorem C17_facet_range_rejected : forall T (S : Scalar T) (d : deckm (T:=T)),
+  validate S d = Ok tt ->
+  forall lat trs sm imps cells,
+    parse_lattice (d_latopts d) = Ok lat -> stage_trs S (d_trs d) [] = Ok trs ->
+    stage_surfs S trs (d_surfs d) [] = Ok sm -> imp_cards_check S (d_imps d) = Ok imps ->
+    stage_cells S trs imps lat 0 (d_cells d) = Ok cells ->
+    forall c cs l k mn nm nt4,
+      In (c, cs) cells -> In l (c_lits c) -> l_facet l = Some k ->
+      lookup (l_surf l) sm = Some (mn, (nm, nt4)) ->
+      (cs_u cs = 0%Z -> seqb S (cs_imp cs) (s0 S) = false -> cs_lat cs = None ->
+       cs_fill cs = None -> cs_trcl cs = None -> (k <= nt4)%nat) /\
+      (forall n, cs_trcl cs = Some n -> (1 <= k <= nm)%nat).
+Proof. exact @run_facets_in_range. Qed.
+Print Assumptions C17_facet_range_rejected.
+
+Theorem C17_facet_check_exact : forall nt4 k,
+  (facet_check nt4 k = Ok tt <-> (k <= nt4)%nat) /\
+  ((nt4 < k)%nat -> facet_check nt4 k = Err ECellConversion).
+Proof. intros; split; [apply facet_check_exact|apply facet_range_rejected]. Qed.
+Print Assumptions C17_facet_check_exact.
+
+(* the full statement (facets are 1..n) is false of the code: facet 0 passes
+   pot_expand_surfs for every surface *)
+Theorem C17_facet_zero_refuted : forall nt4, facet_check nt4 0 = Ok tt.
+Proof. intros; reflexivity. Qed.
+Print Assumptions C17_facet_zero_refuted.
+
+(* ---------------- FILL arrays ---------------- *)
+
+Theorem C17_fill_array_short_rejected : forall T (S : Scalar T) (d : deckm (T:=T)) c e first rs nums b,
+  In c (d_cells d) -> c_toks c = e :: first :: rs ++ nums ->
+  prefix "imp" (tsp e) = false -> contains_sub "fill" (tsp e) = true ->
+  has_colon first = true -> forallb has_colon rs = true ->
+  Forall (fun t => has_colon t = false) nums -> Forall (plain (T:=T)) nums ->
+  parse_ranges (map tsp (first :: rs)) = Ok b ->
+  (Z.of_nat (List.length nums) < bounds_size b)%Z ->
+  is_ok (validate S d) = false.
+Proof. exact @run_fill_array_short_rejected. Qed.
+Print Assumptions C17_fill_array_short_rejected.
+
+(* whatever parse_fill_kw accepts holds exactly as many universes as the ranges *)
+Theorem C17_fill_array_length_exact : forall T (S : Scalar T) star trs first r1 (fr : fillres) rest b,
+  has_colon (T:=T) first = true -> parse_fill S star trs (first :: r1) = Ok (fr, rest) ->
+  f_bounds fr = Some b -> Z.of_nat (List.length (f_univs fr)) = bounds_size b.
+Proof. exact @fill_array_length_exact. Qed.
+Print Assumptions C17_fill_array_length_exact.
+
+(* ... but an over-long array is not rejected: exactly three surplus entries
+   become a 12-entry transformation (a translation) *)
+Definition tk {T} (S : Scalar T) (s : string) (z : Z) : tok (T:=T) := mkTok s (sofZ S z) z.
+Theorem C17_fill_array_surplus_3_refuted : forall T (S : Scalar T),
+  parse_fill S false []
+    [tk S "0:1" 0; tk S "0:1" 0; tk S "0:0" 0; tk S "2" 2; tk S "2" 2; tk S "2" 2; tk S "2" 2;
+     tk S "7" 7; tk S "8" 8; tk S "9" 9]%Z
+  = Ok (mkFill (Some [(0, 1); (0, 1); (0, 0)]%Z) [Some 2; Some 2; Some 2; Some 2]%Z 12, []).
+Proof. intros; vm_compute; reflexivity. Qed.
+Print Assumptions C17_fill_array_surplus_3_refuted.
+
+(* ---------------- IMP cards, materials, --lattice strings ---------------- *)
+
+Theorem C17_imp_unequal_rejected : forall T (S : Scalar T) (d : deckm (T:=T)) rows r1 r2,
+  expand_cards (d_imps d) = Ok rows -> In r1 rows -> In r2 rows ->
+  List.length r1 <> List.length r2 -> is_ok (validate S d) = false.
+Proof. exact @run_imp_unequal_rejected. Qed.
+Print Assumptions C17_imp_unequal_rejected.
+
+Theorem C17_mixed_fractions_rejected : forall T (S : Scalar T) (d : deckm (T:=T)) m l p q,
+  d_skipcomp d = false -> In m (d_mats d) -> mat_pairs m = Ok l ->
+  In p l -> In q l -> frac_negative (snd p) <> frac_negative (snd q) ->
+  is_ok (validate S d) = false.
+Proof. exact @run_mixed_fractions_rejected. Qed.
+Print Assumptions C17_mixed_fractions_rejected.
+
+(* a --lattice argument is accepted exactly when it is
+   cell,lo:hi[,lo:hi[,lo:hi]] with Python-int fields *)
+Theorem C17_latopt_exact : forall opts, is_ok (parse_lattice opts) = forallb latopt_wf opts.
+Proof. exact parse_lattice_exact. Qed.
+Print Assumptions C17_latopt_exact.
+
+Theorem C17_latopt_malformed_rejected : forall T (S : Scalar T) (d : deckm (T:=T)) o,
+  In o (d_latopts d) -> latopt_wf o = false -> is_ok (validate S d) = false.
+Proof. exact @run_latopt_malformed_rejected. Qed.
+Print Assumptions C17_latopt_malformed_rejected.
+
+(* ---------------- non-vacuity ---------------- *)
+
+(* the doctest arguments are well formed / malformed as the code says *)
+Example latopt_examples :
+  map latopt_wf ["200,2:5,0:4"; "5902,0:5,0:5,0:5"; "10,-4:4"; "malformed"; "three,-1:5";
+                 "100,"; "100,0:4,0:4,0:4,0:4"; "100,0:6.022e23"]
+  = [true; true; true; false; false; false; false; false].
+Proof. vm_compute. reflexivity. Qed.
+
+Example parse_lattice_doctest :
+  parse_lattice ["200,2:5,0:4"; "5902,0:5,0:5,0:5"; "10,-4:4"]
+  = Ok [(10, [(-4, 4)]); (5902, [(0, 5); (0, 5); (0, 5)]); (200, [(2, 5); (0, 4)])]%Z.
+Proof. vm_compute. reflexivity. Qed.
+
+(* a deck that the model accepts, and the same deck with one fault of several
+   classes: the hypotheses of the theorems are satisfiable and the unfaulted
+   deck does finish *)
+Definition fl (l : list Z) : list PrimFloat.float := map (sofZ FS) l.
+Definition ex_tok (s : string) (v : PrimFloat.float) (z : Z) : tok (T:=PrimFloat.float) := mkTok s v z.
+Definition ex_deck (m : Z) (so_params : list Z) (facet : option nat)
+  : deckm (T:=PrimFloat.float) :=
+  mkDeck [] [mkSurf 1%Z None "so" (fl so_params); mkSurf 2%Z (Some 5%Z) "rcc" (fl [0;0;0;0;0;2;1]%Z)]
+         [mkTr 5%Z (fl [1;2;3; 1;0;0; 0;1;0; 0;0;1; m]%Z)]
+         []
+         [mkCellc 1%Z [mkLit 1%Z None; mkLit 2%Z facet] []
+                  [ex_tok "imp:n" (sofZ FS 0) 0%Z; ex_tok "1" (sofZ FS 1) 1%Z];
+          mkCellc 2%Z [mkLit 1%Z None] []
+                  [ex_tok "imp:n" (sofZ FS 0) 0%Z; ex_tok "0" (sofZ FS 0) 0%Z]]
+         [["1001"; "0.5"; "8016"; "0.5"]] false.
+Example ex_deck_finishes : validate FS (ex_deck 1 [5]%Z (Some 3%nat)) = Ok tt.
+Proof. vm_compute. reflexivity. Qed.
+Example ex_deck_m_rejected : validate FS (ex_deck (-1) [5]%Z (Some 3%nat)) = Err ETransformation.
+Proof. vm_compute. reflexivity. Qed.
+Example ex_deck_facet_rejected : validate FS (ex_deck 1 [5]%Z (Some 4%nat)) = Err ECellConversion.
+Proof. vm_compute. reflexivity. Qed.
+Example ex_deck_facet_zero_finishes : validate FS (ex_deck 1 [5]%Z (Some 0%nat)) = Ok tt.
+Proof. vm_compute. reflexivity. Qed.
+Example ex_deck_surplus_finishes : validate FS (ex_deck 1 [5; 6]%Z None) = Ok tt.
+Proof. vm_compute. reflexivity. Qed.
